@@ -286,12 +286,25 @@ mod compat {
     use codespan_reporting::files::SimpleFile;
 
     pub fn position_to_offset(file: &SimpleFile<&str, &str>, pos: &lsp_types::Position) -> usize {
-        codespan_lsp::position_to_byte_index(
-            file,
-            (),
-            &lsp_types_old::Position::new(pos.line, pos.character),
-        )
-        .unwrap()
+        use codespan_reporting::files::Files;
+
+        // The protocol allows positions behind the end of a line (and clients send positions
+        // for a text that is already outdated), so positions outside the text are clamped.
+        let source: &str = file.source();
+        let Ok(range) = file.line_range((), pos.line as usize) else {
+            return source.len();
+        };
+        let line = &source[range.clone()];
+        let line = line.strip_suffix('\n').unwrap_or(line);
+        let line = line.strip_suffix('\r').unwrap_or(line);
+        let mut character = 0;
+        for (offset, c) in line.char_indices() {
+            if character >= pos.character as usize {
+                return range.start + offset;
+            }
+            character += c.len_utf16();
+        }
+        range.start + line.len()
     }
 
     pub fn span_to_range(file: &SimpleFile<&str, &str>, span: &Span) -> lsp_types::Range {
